@@ -36,6 +36,16 @@ impl Driven for D {
          _ => panic!("verif harness: unknown relation {}", rel),
       }
    }
+   fn clear(&mut self, rel: &str) {
+      match rel {
+         "o" => { self.0.o = Default::default(); },
+         "v" => { self.0.v = Default::default(); },
+         "w" => { self.0.w = Default::default(); },
+         "nn" => { self.0.nn = Default::default(); },
+         "oo" => { self.0.oo = Default::default(); },
+         _ => panic!("verif harness: unknown relation {}", rel),
+      }
+   }
    fn run(&mut self) { self.0.run(); }
    fn dump(&self) -> Value {
       let mut m: Vec<(String, Value)> = vec![];
